@@ -1345,6 +1345,13 @@ def int_from_bytes_model(ip, args, kw):
             # undetermined length: the usual 32-byte case apart, the general big-endian value (spec be_value)
             if ip.st.branch(n == 32, "from_bytes of 32 bytes"):
                 uv = 32
+                bv_ = ip.reg.get_spec('be_value', optional=True)
+                if order == 'big' and bv_ is not None:
+                    # the abstract 32-byte big-endian reading IS the positional value: say so, because the other lengths
+                    # of this very call are expressed by be_value and contracts speak about the value in those terms
+                    r32 = bytes_int(ip, s, 32, '>')
+                    ip.st.assume_def(lift(r32, 'int').e == lift(_M().call_spec(ip, bv_, [s], {}), 'int').e)
+                    return r32
             else:
                 if order != 'big':
                     raise Unsupported("int.from_bytes (little-endian) of a string of symbolic length")
